@@ -97,6 +97,18 @@ def direction_b(spec, pad):
     if d:
         raise Violation('C02:b:fields:%s:%s' % (name, _gen(d)),
                         '%s.decode() of a conformant encoding differs at %s' % (name, d), case)
+    # what decode() returns for given bytes does not depend on what happened to objects decoded earlier
+    g.scramble(obj)
+    try:
+        got = g.extract(cls.decode(raw))
+    except Exception as exc:
+        raise Violation('C02:b:decode-again:%s:%s' % (name, lib_frame(exc)),
+                        'second %s.decode() of the same bytes raised %r' % (name, exc), case)
+    d = g.first_diff(g.norm_ae(spec), g.norm_ae(got))
+    if d:
+        raise Violation('C02:b:decode-history:%s:%s' % (name, _gen(d)),
+                        '%s.decode() of the same conformant bytes differs at %s once the object decoded first was '
+                        'modified by its owner' % (name, d), case)
 
 
 def check_object(obj, spec, case, tag):
